@@ -97,6 +97,7 @@ func VerifH_C08_O7s_slicer_shared_by_legs() {
 		k = 3
 	}
 	verif.Schedules(k)
+	verif.Races(true)
 	mk := func(id byte, lo, hi int64) *data.Object {
 		return &data.Object{ID: ksuid.KSUID{id}, Min: zed.NewInt64(lo), Max: zed.NewInt64(hi), Count: 1, Size: 1}
 	}
